@@ -88,6 +88,8 @@ def check_case(image, answers, r, max_records=3):
         dev = DEVICE(answers)
         o = run_engine(path, engine, dev, ring=ringlen, timeout=1.0)
         nruns += 1
+        if o.exc == 'Watchdog':
+            WATCHDOGS[0] += 1
         diffs = compare(r, o, ringlen, image.w)
         if diffs and len(recs) < max_records:
             recs.append({
@@ -103,6 +105,7 @@ def check_case(image, answers, r, max_records=3):
 
 
 DEVICE = None
+WATCHDOGS = [0]  # engine runs that hit the watchdog in this worker; exploration stops after 25 (the run already fails)
 
 
 def work(task):
@@ -125,6 +128,9 @@ def work(task):
         vals = [alpha[i] for i in pre] + list(combo)
         data.update(zip(pos, vals))
         image = R1.Image(w, segs, data)
+        if WATCHDOGS[0] > 25:
+            stats['aborted_after_watchdogs'] = 1
+            break
         stats['images'] += 1
         for answers, r in answer_scripts(image, max_reads):
             if r.cause == R1.HORIZON:
